@@ -36,8 +36,8 @@ func newExampleBuilder(types map[string]internalSchema.Type) *exampleBuilder {
 }
 
 // Build returns an example which the schema accepts: at the recursion limit an
-// optional property is left out, an array ends, and an "or" takes the first
-// alternative which can still be built. If nothing can be built that way (a
+// optional property is left out, an array ends (not before its minItems), and an
+// "or" takes the first alternative which can still be built. If nothing can be built that way (a
 // type that requires itself), the best effort is returned.
 func (b *exampleBuilder) Build(node internalSchema.Node) ([]byte, error) {
 	ex, err := b.build(node)
@@ -214,7 +214,7 @@ func (b *exampleBuilder) buildExampleForArrayNode(node *internalSchema.ArrayNode
 	buf.WriteRune('[')
 	children := node.Children()
 	first := true
-	for _, childNode := range children {
+	for i, childNode := range children {
 		ex, err := b.build(childNode)
 		if err != nil {
 			return nil, err
@@ -226,7 +226,16 @@ func (b *exampleBuilder) buildExampleForArrayNode(node *internalSchema.ArrayNode
 			}
 			// The recursion limit is reached: the array ends here, a later
 			// element must not move to an earlier position.
-			break
+			if uint(i) >= minItems(node) {
+				break
+			}
+			// It would be too short. Unless the element can be null, the array
+			// can't be built: let an optional property be left out, or an "or"
+			// above choose another alternative.
+			if !isNullable(childNode) {
+				return nil, nil
+			}
+			ex = []byte("null")
 		}
 
 		if !first {
@@ -239,6 +248,19 @@ func (b *exampleBuilder) buildExampleForArrayNode(node *internalSchema.ArrayNode
 	buf.WriteRune(']')
 	// Copy before the deferred Put hands the buffer to another goroutine.
 	return append([]byte(nil), buf.Bytes()...), nil
+}
+
+func isNullable(node internalSchema.Node) bool {
+	c, ok := node.Constraint(constraint.NullableConstraintType).(*constraint.Nullable)
+	return ok && c.Bool()
+}
+
+func minItems(node *internalSchema.ArrayNode) uint {
+	c, ok := node.Constraint(constraint.MinItemsConstraintType).(*constraint.MinItems)
+	if !ok {
+		return 0
+	}
+	return c.Value()
 }
 
 func (b *exampleBuilder) buildExampleForMixedValueNode(node *internalSchema.MixedValueNode) ([]byte, error) {
